@@ -317,11 +317,11 @@ func (s *Sim) Go(name string, f func()) {
 	s.live[name]++
 	s.mu.Unlock()
 	raceOn()
-	go s.run(name, f)
+	go s.run(name, f, false)
 }
 
 //go:norace
-func (s *Sim) run(name string, f func()) {
+func (s *Sim) run(name string, f func(), child bool) {
 	pprof.SetGoroutineLabels(pprof.WithLabels(context.Background(), pprof.Labels("g", name)))
 	id := gkey()
 	raceOff()
@@ -350,6 +350,15 @@ func (s *Sim) run(name string, f func()) {
 		default:
 		}
 	}()
+	// when a new goroutine first runs is the scheduler's decision too (a yield site like the
+	// others: active in the runs whose yield subset contains it), so that "started but not yet
+	// running" windows - the code right behind a go statement against the code at the top of the
+	// new goroutine - are explored and replayed instead of being left to the Go runtime
+	// (goroutines started by name - by the world's set-up, on the scheduler's own goroutine - start
+	// as they always did)
+	if child {
+		s.Yield("spawn")
+	}
 	f()
 }
 
@@ -363,9 +372,10 @@ func (s *Sim) GoChild(f func()) {
 	s.mu.Lock()
 	s.children[parent]++
 	name := parent + "." + strconv.Itoa(s.children[parent])
+	s.live[name]++
 	s.mu.Unlock()
 	raceOn()
-	s.Go(name, f)
+	go s.run(name, f, true)
 }
 
 // Live returns the names of goroutines started through Go/GoChild that have
